@@ -251,4 +251,4 @@ def eval_case(case):
 
 def parts(tier):
     t = tier == 'thorough'
-    return [Part('molecules', eval_case, strategy=strategy, examples=100000 if t else 4000)]
+    return [Part('molecules', eval_case, strategy=strategy, examples=300000 if t else 4000)]
